@@ -87,4 +87,112 @@ theorem foldl_be (bs : List Nat) (acc : Nat) :
 theorem foldl_be_zero (bs : List Nat) : bs.foldl (fun a b => a * 256 + b) 0 = beVal bs := by
   simpa using foldl_be bs 0
 
+/-! ### lists -/
+
+/-- zipping a list with its own image pairs every member with its image -/
+theorem zip_map_self {α β : Type} (g : α → β) (l : List α) : ∀ p ∈ l.zip (l.map g), p.2 = g p.1 := by
+  induction l with
+  | nil => simp
+  | cons x xs ih =>
+    intro p hp
+    simp only [List.map_cons, List.zip_cons_cons, List.mem_cons] at hp
+    rcases hp with rfl | hp
+    · rfl
+    · exact ih p hp
+
+/-! ### conversion (`Model/Convert.lean`) -/
+section Convert
+open AnonModel.Convert AnonModel.VerifierW3C AnonModel.Encode
+
+/-- what `CredentialSubject::encode` makes of one string / number entry -/
+def encEntry (nv : String × SubjVal) : String × (String × String) :=
+  (nv.1, (nv.2.toStr, encode nv.2.toStr))
+
+/-- one step of `CredentialSubject::encode` -/
+def encOne (nv : String × SubjVal) : Option (String × (String × String)) :=
+  match nv.2 with
+  | .str s => some (nv.1, (s, encode s))
+  | .num k => some (nv.1, (intToDec k, encode (intToDec k)))
+  | .bool _ => none
+
+theorem subjectEncode_def (subj : Subject) : subjectEncode subj = subj.mapM encOne := rfl
+
+theorem encOne_of_not_bool {nv : String × SubjVal} (h : ∀ b, nv.2 ≠ .bool b) :
+    encOne nv = some (encEntry nv) := by
+  obtain ⟨n, v⟩ := nv
+  cases v with
+  | str s => rfl
+  | num k => rfl
+  | bool b => exact absurd rfl (h b)
+
+theorem encOne_eq_none_iff {nv : String × SubjVal} : encOne nv = none ↔ ∃ b, nv.2 = .bool b := by
+  obtain ⟨n, v⟩ := nv
+  cases v <;> simp [encOne]
+
+/-- `CredentialSubject::encode` succeeds iff no entry is a boolean, and then every entry is
+(printed form, encoding of the printed form) -/
+theorem subjectEncode_eq_some_iff (subj : Subject) (values : Values) :
+    subjectEncode subj = some values ↔
+      (∀ nv ∈ subj, ∀ b, nv.2 ≠ .bool b) ∧ values = subj.map encEntry := by
+  rw [subjectEncode_def]
+  constructor
+  · intro h
+    have hnb : ∀ nv ∈ subj, ∀ b, nv.2 ≠ .bool b := by
+      intro nv hnv b hb
+      have : subj.mapM encOne = none :=
+        (mapM_eq_none_iff _ _).mpr ⟨nv, hnv, encOne_eq_none_iff.mpr ⟨b, hb⟩⟩
+      rw [h] at this; cases this
+    refine ⟨hnb, ?_⟩
+    rw [mapM_eq_some_iff] at h
+    have h2 : (subj.map encEntry).map some = values.map some := by
+      rw [← h, List.map_map]
+      apply List.map_congr_left
+      intro nv hnv
+      exact (encOne_of_not_bool (hnb nv hnv)).symm
+    exact ((List.map_inj_right (fun _ _ h => Option.some.inj h)).mp h2).symm
+  · rintro ⟨hnb, rfl⟩
+    rw [mapM_eq_some_iff, List.map_map]
+    apply List.map_congr_left
+    intro nv hnv
+    exact encOne_of_not_bool (hnb nv hnv)
+
+theorem subjectEncode_eq_none_iff (subj : Subject) :
+    subjectEncode subj = none ↔ ∃ nv ∈ subj, ∃ b, nv.2 = .bool b := by
+  rw [subjectEncode_def, mapM_eq_none_iff]
+  constructor
+  · rintro ⟨nv, hnv, h⟩; exact ⟨nv, hnv, encOne_eq_none_iff.mp h⟩
+  · rintro ⟨nv, hnv, h⟩; exact ⟨nv, hnv, encOne_eq_none_iff.mpr h⟩
+
+/-- how `CredentialSubject::from` re-reads a printed value -/
+def reparse (s : String) : SubjVal :=
+  match parseI32 s.toList with
+  | some k => .num k
+  | none => .str s
+
+theorem toSubject_eq (values : Values) : toSubject values = values.map (fun nv => (nv.1, reparse nv.2.1)) := rfl
+
+/-- the printed form of a re-read raw value is its normalised form -/
+theorem toStr_reparse (s : String) : (reparse s).toStr = normalizeEnc s := by
+  unfold reparse normalizeEnc
+  cases parseI32 s.toList <;> rfl
+
+theorem reparse_ne_bool (s : String) (b : Bool) : reparse s ≠ .bool b := by
+  unfold reparse; cases parseI32 s.toList <;> simp
+
+/-- legacy → W3C → legacy, computed: names kept in order, raw normalised, encoded recomputed -/
+theorem subjectEncode_toSubject (values : Values) :
+    subjectEncode (toSubject values) =
+      some (values.map (fun nv => (nv.1, (normalizeEnc nv.2.1, encode (normalizeEnc nv.2.1))))) := by
+  rw [subjectEncode_eq_some_iff, toSubject_eq]
+  refine ⟨?_, ?_⟩
+  · intro nv hnv b
+    obtain ⟨x, _, rfl⟩ := List.mem_map.mp hnv
+    exact reparse_ne_bool _ _
+  · rw [List.map_map]
+    apply List.map_congr_left
+    intro nv _
+    simp only [Function.comp, encEntry, toStr_reparse]
+
+end Convert
+
 end AnonModel.Flows
